@@ -181,6 +181,7 @@ static uint8_t *abuf(size_t n, unsigned off)
 }
 #define AFREE(p, off) do { if (guard_mode) guard_free(p); else free((p) - (off)); } while (0)
 
+static int gcm_sweep; static unsigned sweep_idx;
 static uint32_t pick_len(rng_t *r, uint32_t maxlen, uint32_t unit)
 {
         uint32_t v;
@@ -246,6 +247,7 @@ int main(int argc, char **argv)
         rng_seed(&R, seed);
         tramp_setup();
         guard_setup();
+        gcm_sweep = getenv("VERIF_GCM_SWEEP") != NULL;
         guard_out = fr;
         sens_out = fr;
         long done = 0;
@@ -358,7 +360,7 @@ int main(int argc, char **argv)
                                 int taglen = 8 + 4 * rng_below(&R, 3);
                                 uint8_t tag[16], otag[16];
                                 memset(cd, 0x3C ^ (uint8_t) done, sizeof(CD));
-                                if (rng_below(&R, 3) == 0) {
+                                if (!gcm_sweep && rng_below(&R, 3) == 0) {
                                         /* one-shot */
                                         uint32_t len = pick_len(&R, maxlen, 1);
                                         uint64_t dseed = rng_u64(&R) | 1;
@@ -391,12 +393,21 @@ int main(int argc, char **argv)
                                         show_ctx(cd);
                                         fputc('\n', fr);
                                         done++;
-                                        int nup = rng_below(&R, 7);
+                                        int nup = gcm_sweep ? 3 : rng_below(&R, 7);
                                         size_t total = 0, cap = 1 << 16;
                                         uint8_t *allin = malloc(cap), *allout = malloc(cap);
                                         for (int u = 0; u < nup; u++) {
                                                 int lastp = (u == nup - 1);
                                                 uint32_t len = pick_len(&R, maxlen, (G->nt && !lastp) ? 64 : 1);
+                                                if (gcm_sweep && u == 0) {
+                                                        /* counter-carry sweep: message k has consumed k mod 256 blocks (plus, every
+                                                           other round, a carried partial block) when the long update starts */
+                                                        len = G->nt ? 64 * (sweep_idx % 64) : 16 * (sweep_idx % 256) + (rng_below(&R, 2) ? rng_below(&R, 16) : 0);
+                                                        sweep_idx++;
+                                                } else if (gcm_sweep && u == 1) {
+                                                        len = 257 + rng_below(&R, 1800);
+                                                        if (G->nt) len -= len % 64;
+                                                }
                                                 uint64_t dseed = rng_u64(&R) | 1;
                                                 unsigned ioff = G->nt ? 0 : rng_below(&R, 64), ooff = G->nt ? 0 : rng_below(&R, 64);
                                                 int inplace = rng_below(&R, 2);
